@@ -355,6 +355,8 @@ class Scope:
                 self.aliases[st.name.id] = st.value
                 self._note(st.name.id)
             elif isinstance(st, ast.If):
+                if "__name__" in _unparse(st.test) and "__main__" in _unparse(st.test):
+                    continue  # not executed on import: not part of the module's interface
                 self._visit(st.body, True)
                 self._visit(st.orelse, True)
             elif isinstance(st, ast.Try):
@@ -482,6 +484,8 @@ class Model:
             return "type-alias"
         d = dotted(val) if val is not None else None
         if d:
+            if d.split(".")[0] in self.rs.map and "." not in d:
+                return "imported-name-alias"
             if d in self.top.classes:
                 return "class-alias"
             if d in self.top.funcs:
@@ -824,8 +828,10 @@ _NUM = re.compile(r"\b\d+\b")
 def norm_msg(msg: str) -> str:
     msg = re.sub(r"\bClass [\w.]+ ", "Class _ ", msg)
     msg = re.sub(r'; (did you mean|maybe) .*$', "", msg)
+    msg = re.sub(r"variable differs from runtime type .*$", "variable differs from runtime type <T>", msg)
     msg = re.sub(r"has a default value of .*, which is different from stub parameter default .*$",
                  "has a default value of <V>, which is different from stub parameter default <V>", msg)
+    msg = re.sub(r"has abstract attributes .*$", "has abstract attributes ...", msg)
     msg = re.sub(r'("[^"]*")(, "[^"]*")+', r'\1, ...', msg)
     msg = re.sub(r"(runtime type |has type |type )(\w+)\[.*$", r"\1\2[...]", msg)
     msg = _Q.sub('"_"', msg)
